@@ -96,10 +96,13 @@ theorem storedIn_set_list (parent child : Obj) (m : MemberSpec) (l : List Val) (
   exact ⟨l, hg, get_set_eq _ _ _⟩
 
 /-- everything `__add` can do -/
-theorem place_cases (parent child : Obj) (m : MemberSpec) (force : Bool) :
-    (∃ p', place parent child m force = .ok (p', none) ∧ Storable parent child m force ∧ StoredIn parent p' m child)
-    ∨ (place parent child m force = .ok (parent, some (warnOf m)) ∧ force = false ∧ Taken parent child m)
-    ∨ ((place parent child m force = .error .keyError ∨ place parent child m force = .error .notAList)
+theorem place_cases (sOk : Bool) (parent child : Obj) (m : MemberSpec) (force : Bool) :
+    (∃ p', place sOk parent child m force = .ok (p', none) ∧ Storable parent child m force ∧
+        StoredIn parent p' m child)
+    ∨ (Taken parent child m ∧ force = false ∧
+        ((place sOk parent child m force = .ok (parent, some (warnOf m)) ∧ (m.container = true → sOk = true))
+         ∨ (place sOk parent child m force = .error .strFails ∧ m.container = true ∧ sOk = false)))
+    ∨ ((place sOk parent child m force = .error .keyError ∨ place sOk parent child m force = .error .notAList)
         ∧ ¬ Storable parent child m force ∧ ¬ Taken parent child m) := by
   cases hc : m.container with
   | false =>
@@ -135,7 +138,7 @@ theorem place_cases (parent child : Obj) (m : MemberSpec) (force : Bool) :
           cases hi : pyIn true child l with
           | true =>
             right; left
-            simp [place, Taken, warnOf, hc, hg, hi]
+            cases sOk <;> simp [place, Taken, warnOf, hc, hg, hi]
           | false =>
             left
             refine ⟨parent.set m.name (.list (l ++ [.obj child])), by simp [place, hc, hg, hi],
@@ -145,46 +148,45 @@ theorem place_cases (parent child : Obj) (m : MemberSpec) (force : Bool) :
       | node i => right; right; simp [place, Storable, Taken, hc, hg]
       | obj o => right; right; simp [place, Storable, Taken, hc, hg]
 
-theorem place_storable {parent child : Obj} {m : MemberSpec} {force : Bool} (h : Storable parent child m force) :
-    ∃ p', place parent child m force = .ok (p', none) ∧ StoredIn parent p' m child := by
-  rcases place_cases parent child m force with ⟨p', hp, _, hs⟩ | ⟨_, hf, ht⟩ | ⟨_, hns, _⟩
+theorem storable_not_taken {parent child : Obj} {m : MemberSpec} (h : Storable parent child m false)
+    (ht : Taken parent child m) : False := by
+  unfold Storable at h; unfold Taken at ht
+  cases hc : m.container with
+  | true =>
+    simp only [hc, ↓reduceIte, Bool.false_eq_true, false_or] at h ht
+    obtain ⟨l, hl, hi⟩ := h
+    obtain ⟨l', hl', hi'⟩ := ht
+    rw [hl] at hl'; cases hl'
+    rw [hi] at hi'; cases hi'
+  | false =>
+    simp only [hc, Bool.false_eq_true, ↓reduceIte, false_or] at h ht
+    obtain ⟨v, hv, hi⟩ := h
+    obtain ⟨v', hv', hi'⟩ := ht
+    rw [hv] at hv'; cases hv'
+    rw [hi] at hi'; cases hi'
+
+theorem place_storable {parent child : Obj} {m : MemberSpec} {force : Bool} (sOk : Bool)
+    (h : Storable parent child m force) :
+    ∃ p', place sOk parent child m force = .ok (p', none) ∧ StoredIn parent p' m child := by
+  rcases place_cases sOk parent child m force with ⟨p', hp, _, hs⟩ | ⟨ht, hf, _⟩ | ⟨_, hns, _⟩
   · exact ⟨p', hp, hs⟩
-  · exfalso
-    unfold Storable at h; unfold Taken at ht
-    subst hf
-    cases hc : m.container with
-    | true =>
-      simp only [hc, ↓reduceIte, Bool.false_eq_true, false_or] at h ht
-      obtain ⟨l, hl, hi⟩ := h
-      obtain ⟨l', hl', hi'⟩ := ht
-      rw [hl] at hl'; cases hl'
-      rw [hi] at hi'; cases hi'
-    | false =>
-      simp only [hc, Bool.false_eq_true, ↓reduceIte, false_or] at h ht
-      obtain ⟨v, hv, hi⟩ := h
-      obtain ⟨v', hv', hi'⟩ := ht
-      rw [hv] at hv'; cases hv'
-      rw [hi] at hi'; cases hi'
+  · subst hf; exact (storable_not_taken h ht).elim
   · exact absurd h hns
 
-theorem place_taken {parent child : Obj} {m : MemberSpec} (h : Taken parent child m) :
-    place parent child m false = .ok (parent, some (warnOf m)) := by
-  rcases place_cases parent child m false with ⟨p', _, hst, _⟩ | ⟨hp, _, _⟩ | ⟨_, _, hnt⟩
-  · exfalso
-    unfold Storable at hst; unfold Taken at h
-    cases hc : m.container with
-    | true =>
-      simp only [hc, ↓reduceIte, Bool.false_eq_true, false_or] at h hst
-      obtain ⟨l, hl, hi⟩ := h
-      obtain ⟨l', hl', hi'⟩ := hst
-      rw [hl] at hl'; cases hl'
-      rw [hi] at hi'; cases hi'
-    | false =>
-      simp only [hc, Bool.false_eq_true, ↓reduceIte, false_or] at h hst
-      obtain ⟨v, hv, hi⟩ := h
-      obtain ⟨v', hv', hi'⟩ := hst
-      rw [hv] at hv'; cases hv'
-      rw [hi] at hi'; cases hi'
+theorem place_taken {parent child : Obj} {m : MemberSpec} (sOk : Bool) (h : Taken parent child m)
+    (hs : m.container = true → sOk = true) :
+    place sOk parent child m false = .ok (parent, some (warnOf m)) := by
+  rcases place_cases sOk parent child m false with ⟨p', _, hst, _⟩ | ⟨_, _, ⟨hp, _⟩ | ⟨_, hc, hso⟩⟩ | ⟨_, _, hnt⟩
+  · exact (storable_not_taken hst h).elim
+  · exact hp
+  · rw [hs hc] at hso; cases hso
+  · exact absurd h hnt
+
+theorem place_taken_strFails {parent child : Obj} {m : MemberSpec} (h : Taken parent child m)
+    (hc : m.container = true) : place false parent child m false = .error .strFails := by
+  rcases place_cases false parent child m false with ⟨p', _, hst, _⟩ | ⟨_, _, ⟨_, hs⟩ | ⟨hp, _, _⟩⟩ | ⟨_, _, hnt⟩
+  · exact (storable_not_taken hst h).elim
+  · exact absurd (hs hc) (by decide)
   · exact hp
   · exact absurd h hnt
 
